@@ -45,6 +45,10 @@ type c10Case struct {
 	Field  string `json:"field,omitempty"`
 	Format string `json:"format,omitempty"`
 	Offset int64  `json:"offset_ms,omitempty"`
+	Years  int    `json:"offset_years,omitempty"` // far past / far future documents (beyond what a time.Duration holds)
+	// time rule, sequences of documents with several time fields through one (pooled) processor
+	TSeq   []int `json:"tseq,omitempty"`
+	TSplit bool  `json:"tsplit,omitempty"` // one request per document instead of one request for all
 }
 
 func objOfLen(n int, tag string) string {
@@ -313,6 +317,9 @@ func c10Time(r *vlib.Run, ing *bulk.Ingestor, cap *capture, drift, future time.D
 	r.Add("evaluations", 1)
 	reqTime := time.Date(2024, 3, 5, 10, 0, 0, 0, time.UTC)
 	docTime := reqTime.Add(time.Duration(c.Offset) * time.Millisecond)
+	if c.Years != 0 {
+		docTime = reqTime.AddDate(c.Years, 0, 0)
+	}
 	var val string
 	parsable := true
 	switch c.Format {
@@ -340,7 +347,7 @@ func c10Time(r *vlib.Run, ing *bulk.Ingestor, cap *capture, drift, future time.D
 		sent = true
 		return []byte(doc), nil
 	})
-	sig := fmt.Sprintf("time-rule field=%s format=%s offset_ms=%d", c.Field, c.Format, c.Offset)
+	sig := fmt.Sprintf("time-rule field=%s format=%s offset_ms=%d offset_years=%d", c.Field, c.Format, c.Offset, c.Years)
 	if err != nil || n != 1 {
 		r.Violation(sig+" not stored", c, fmt.Sprintf("doc %s err=%v n=%d", doc, err, n))
 		return
@@ -352,14 +359,107 @@ func c10Time(r *vlib.Run, ing *bulk.Ingestor, cap *capture, drift, future time.D
 	if stored != doc {
 		r.Violation(sig+" bytes changed", c, fmt.Sprintf("stored %q want %q", stored, doc))
 	}
-	delay := reqTime.Sub(docTime)
-	within := parsable && c.Field != "other" && delay <= drift && -delay <= future
+	within := parsable && c.Field != "other" && !docTime.Before(reqTime.Add(-drift)) && !docTime.After(reqTime.Add(future))
 	want := reqTime
 	if within {
 		want = docTime
 	}
 	if int64(md.ID.MID) != want.UnixMilli() {
 		r.Violation(sig, c, fmt.Sprintf("doc %s: MID %d, want %d (request time %d, document time %d, within drift=%v)", doc, md.ID.MID, want.UnixMilli(), reqTime.UnixMilli(), docTime.UnixMilli(), within))
+	}
+	r.Distinct("nontrivial", sig)
+}
+
+// ---- (C) time rule over sequences: the ID time of a document depends on that document only ----
+
+// c10TSpecs: time fields of a document as (field, offset in ms; 1<<40 = unparsable value).
+var c10TSpecs = [][][2]any{
+	{{"ts", -1000}},
+	{{"time", -2000}},
+	{{"timestamp", -3000}},
+	{{"timestamp", -3000}, {"ts", -1000}},
+	{{"time", -2000}, {"ts", -1000}},
+	{{"timestamp", -3000}, {"time", -2000}},
+	{{"ts", -1000}, {"timestamp", -3000}}, // the order of the keys in the document does not matter
+	{{"timestamp", 1 << 40}, {"ts", -1000}},
+	{{"timestamp", -11000}, {"ts", -1000}}, // the first field that parses decides, also when it is out of drift
+	{{"ts", -11000}},
+	{},
+}
+
+func c10TSeq(r *vlib.Run, ing *bulk.Ingestor, cap *capture, drift, future time.Duration, c c10Case) {
+	r.Add("evaluations", 1)
+	reqTime := time.Date(2024, 3, 5, 10, 0, 0, 0, time.UTC)
+	var docs []string
+	var want []int64
+	for i, si := range c.TSeq {
+		var parts []string
+		exp, decided := reqTime, false
+		for _, prio := range []string{"timestamp", "time", "ts"} {
+			for _, f := range c10TSpecs[si] {
+				if f[0].(string) != prio || decided {
+					continue
+				}
+				if off := f[1].(int); off != 1<<40 {
+					decided = true
+					dt := reqTime.Add(time.Duration(off) * time.Millisecond)
+					if !dt.Before(reqTime.Add(-drift)) && !dt.After(reqTime.Add(future)) {
+						exp = dt
+					}
+				}
+			}
+		}
+		for _, f := range c10TSpecs[si] {
+			v := "yesterday"
+			if off := f[1].(int); off != 1<<40 {
+				v = reqTime.Add(time.Duration(off) * time.Millisecond).Format(consts.ESTimeFormat)
+			}
+			parts = append(parts, fmt.Sprintf(`"%s":"%s"`, f[0], v))
+		}
+		parts = append(parts, fmt.Sprintf(`"m":"d%d"`, i))
+		docs = append(docs, "{"+strings.Join(parts, ",")+"}")
+		want = append(want, exp.UnixMilli())
+	}
+	sig := fmt.Sprintf("time-rule sequence specs=%v split=%v", c.TSeq, c.TSplit)
+	groups := [][]int{}
+	if c.TSplit {
+		for i := range docs {
+			groups = append(groups, []int{i})
+		}
+	} else {
+		all := []int{}
+		for i := range docs {
+			all = append(all, i)
+		}
+		groups = append(groups, all)
+	}
+	for _, g := range groups {
+		cap.mu.Lock()
+		cap.docs, cap.metas, cap.calls = nil, nil, 0
+		cap.mu.Unlock()
+		k := 0
+		n, err := ing.ProcessDocuments(context.Background(), reqTime, func() ([]byte, error) {
+			if k == len(g) {
+				return nil, nil
+			}
+			k++
+			return []byte(docs[g[k-1]]), nil
+		})
+		if err != nil || n != len(g) {
+			r.Violation(sig+" not stored", c, fmt.Sprintf("docs %q err=%v n=%d", docs, err, n))
+			return
+		}
+		cap.mu.Lock()
+		stored, metas := cap.docs, cap.metas[0]
+		cap.mu.Unlock()
+		for j, di := range g {
+			if string(stored[j]) != docs[di] {
+				r.Violation(sig+" bytes changed", c, fmt.Sprintf("stored %q want %q", stored[j], docs[di]))
+			}
+			if int64(metas[j].ID.MID) != want[di] {
+				r.Violation(sig, c, fmt.Sprintf("document %d of %q: MID %d, want %d (request time %d)", di, docs, metas[j].ID.MID, want[di], reqTime.UnixMilli()))
+			}
+		}
 	}
 	r.Distinct("nontrivial", sig)
 }
@@ -377,6 +477,8 @@ func TestVerifC10(t *testing.T) {
 	if r.LoadReplay(&rc) {
 		if rc.Field != "" {
 			c10Time(r, ing, cp, drift, future, rc)
+		} else if len(rc.TSeq) > 0 {
+			c10TSeq(r, ing, cp, drift, future, rc)
 		} else {
 			c10Run(r, h, cp, rc)
 		}
@@ -446,10 +548,38 @@ func TestVerifC10(t *testing.T) {
 			}
 		}
 	}
+	for _, field := range []string{"timestamp", "time", "ts"} {
+		for _, format := range []string{"es", "rfc3339nano", "rfc3339"} {
+			for _, years := range []int{-1000, -300, -293, 293, 300, 1000, 7000} {
+				c10Time(r, ing, cp, drift, future, c10Case{Field: field, Format: format, Years: years})
+			}
+		}
+	}
 	r.Sample(c10Case{Field: "ts", Format: "es", Offset: -(d + 1)})
+	// ---- (C) sequences ----
+	seqLen := 2
+	if r.Thorough() {
+		seqLen = 3
+	}
+	var recT func(cur []int)
+	recT = func(cur []int) {
+		if len(cur) > 0 {
+			c10TSeq(r, ing, cp, drift, future, c10Case{TSeq: append([]int{}, cur...)})
+			if len(cur) > 1 {
+				c10TSeq(r, ing, cp, drift, future, c10Case{TSeq: append([]int{}, cur...), TSplit: true})
+			}
+		}
+		if len(cur) == seqLen || r.Expired() {
+			return
+		}
+		for i := range c10TSpecs {
+			recT(append(cur, i))
+		}
+	}
+	recT(nil)
 	ev := r.Get("evaluations")
 	r.Finish(t, "model_checking",
-		fmt.Sprintf("bodies: every sequence of <=%d (action, document) items over %d document shapes (objects incl. nested/escaped/empty, non-objects, three invalid-JSON shapes, empty line, object lines of 62..66 and 127..129 bytes around and at twice the %d-byte document/buffer limit) x {LF,CRLF} x {final newline, none}, gzip on every third; plus bad action lines at positions 0..6, an over-long action line and blank lines before actions; through proxyapi.BulkHandler (httptest) over a real bulk.Ingestor with a capturing storage client. Expected outcome from a reference reading of the items: reject (non-2xx, no store call) or the exact ordered list of stored byte strings, one store call, that many response items, distinct IDs timed inside the receive window; a document exactly as long as the limit may be read either way (stored or skipped), but the whole outcome must be the one of one of the two readings. time rule: 4 field names x 5 formats x 11 offsets around both drift borders through Ingestor.ProcessDocuments with a fixed request time", maxItems, len(docNames), c10MaxDoc),
+		fmt.Sprintf("bodies: every sequence of <=%d (action, document) items over %d document shapes (objects incl. nested/escaped/empty, non-objects, three invalid-JSON shapes, empty line, object lines of 62..66 and 127..129 bytes around and at twice the %d-byte document/buffer limit) x {LF,CRLF} x {final newline, none}, gzip on every third; plus bad action lines at positions 0..6, an over-long action line and blank lines before actions; through proxyapi.BulkHandler (httptest) over a real bulk.Ingestor with a capturing storage client. Expected outcome from a reference reading of the items: reject (non-2xx, no store call) or the exact ordered list of stored byte strings, one store call, that many response items, distinct IDs timed inside the receive window; a document exactly as long as the limit may be read either way (stored or skipped), but the whole outcome must be the one of one of the two readings. time rule: 4 field names x 5 formats x 11 offsets around both drift borders plus documents 293..7000 years in the past / future, through Ingestor.ProcessDocuments with a fixed request time; every sequence of <=%d documents over 11 time-field shapes (one or two of timestamp/time/ts, unparsable first field, first field out of drift, none) through one request and through one request per document (pooled processors): each document's ID time depends on that document only", maxItems, len(docNames), c10MaxDoc, seqLen),
 		map[string]any{
 			"states":                        len(bodies),
 			"transitions":                   ev,
